@@ -268,6 +268,15 @@ def queries(tier):
         qs.append(Query(f"bmc_single_{kind}", f4, 116, timeout=900, layer=lay, asserts=asserts, covers=covers,
                         desc=f"layer: a single {kind} requested in cycle 1 (data/ack_i free), no stretching, target SDA free in "
                              "every cycle: the complete 9-clock transfer"))
+    # layer B': a single read whose first bits the target may stretch freely (SCL held low at will during the first 24
+    # cycles) while changing SDA during the stretch: the sampled bit must be the one present when SCL is really high
+    lay = {n: 0 for n in STROBES}
+    lay["read"] = (lambda t: None if t == 1 else 0)
+    lay["tgt_scl"] = (lambda t: None if t < 24 else 1)
+    qs.append(Query("bmc_single_read_stretch", f4, 128, timeout=900, layer=lay,
+                    asserts=["read_data", "nine_clocks", "stretch"], covers=["stretched_bit"],
+                    desc="layer: a single read requested in cycle 1; the target stretches SCL freely during the first 24 cycles "
+                         "and drives SDA freely: complete transfer"))
     # layer B2: one whole transfer with a free kind and whatever operation follows it.  The operation requested in
     # cycle 1 is free (any of the four, data free), later requests are possible again from cycle 100 on; the target
     # never stretches, its SDA is free.
